@@ -331,6 +331,30 @@ func (g *gen) signature() string {
 			rs = append(rs, t)
 		}
 	}
+	// sometimes a parameter is named like a package that only the results use
+	if named == 0 && len(ps) > 0 && len(rs) > 0 && g.tp.Int(3) == 0 {
+		for _, q := range []string{"alpha", "foo", "bar", "widget", "time", "io", "context", "yfoo"} {
+			inRes, inPar := false, false
+			for _, r := range rs {
+				if strings.Contains(r, q+".") {
+					inRes = true
+				}
+			}
+			for _, p := range ps {
+				if strings.Contains(p, q+".") || strings.HasPrefix(p, q+" ") {
+					inPar = true
+				}
+			}
+			if inRes && !inPar && !used[q] {
+				parts := strings.SplitN(ps[0], " ", 2)
+				if len(parts) == 2 && parts[0] != "_" {
+					ps[0] = q + " " + parts[1]
+					used[q] = true
+				}
+				break
+			}
+		}
+	}
 	res := ""
 	switch {
 	case len(rs) == 1 && !rnamed:
